@@ -1,5 +1,5 @@
 #!/venv/bin/python
-"""usage: tools/reseed_all.py [-j N] [seed-id ...]
+"""usage: tools/reseed_all.py [-j N] [--fast] [seed-id ...]
 Re-run, for every kept seeded change (or the named ones), the quick checks recorded in its meta.json, with the patch applied to a
 SCRATCH worktree of /repo (VERIF_REPO=<worktree>), N seeds in parallel; update meta.json (first_round keeps what the checks said when
 the seed was first tried).  /repo itself is not touched, so this can run next to other work; the worktrees live under /tmp and are
@@ -9,8 +9,12 @@ import os, sys, json, subprocess, glob, threading, queue, shutil
 V = os.path.dirname(os.path.dirname(os.path.abspath(__file__)))
 args = sys.argv[1:]
 J = 2
-if args[:1] == ["-j"]:
-    J = int(args[1]); args = args[2:]
+FAST = False
+while args[:1] and args[0] in ("-j", "--fast"):
+    if args[0] == "-j":
+        J = int(args[1]); args = args[2:]
+    else:
+        FAST = True; args = args[1:]          # stop at the first violation and skip the model-checking gates (they do not depend on the tree)
 ids = args or sorted(os.path.basename(os.path.dirname(p)) for p in glob.glob(os.path.join(V, "seeded", "*", "meta.json")))
 os.makedirs(os.path.join(V, "out", "reseed"), exist_ok=True)
 q = queue.Queue()
@@ -45,6 +49,8 @@ def worker(w):
             for p in props:
                 log = os.path.join(V, "out", "reseed", "%s_%s.log" % (sid, p))
                 env = dict(os.environ, VERIF_REPO=wt)
+                if FAST:
+                    env.update(VERIF_FAILFAST="1", VERIF_SKIP_GATES="1")
                 rr = subprocess.run([os.path.join(V, "check"), p, "--tier", "quick"], stdout=open(log, "w"), stderr=subprocess.STDOUT, env=env, cwd=V)
                 nv = sum(1 for l in open(log) if l.startswith("VIOLATION"))
                 res[p] = "exit=%d violations=%d" % (rr.returncode, nv)
